@@ -2,7 +2,7 @@
 import lib_C09 as L
 
 ID = "C09"
-PROOF_FILES = ["C09", "C09Inv", "C09Names", "C09Reach", "C09Sign", "C09Rel", "C09Two", "C09Inst", "C09Pipe"]
+PROOF_FILES = ["C09", "C09Inv", "C09Names", "C09Reach", "C09Sign", "C09Rel", "C09Two", "C09Inst", "C09Pipe", "C09Overflow"]
 THEOREM = ("Ufo2ft.C09.C09_joint / C09_joint_step / C09_decompose / C09_skipExport / C09_flatten / C09_pipeline_otf / "
            "C09_cu2qu_partial / C09_sparse_partial / C09_placeholders / C09_notdef / C09_sign_witness "
            "(+ reverseContour_shape, decomposeGlyph_shape, flattenGlyphComps_shape: the operations act on shapes); pipeline level "
@@ -12,7 +12,11 @@ THEOREM = ("Ufo2ft.C09.C09_joint / C09_joint_step / C09_decompose / C09_skipExpo
 N = {"quick": 220, "thorough": 4000}
 RULE = ("families of 2-4 sources: a random master (line/quadratic/cubic contours on a 1/8 grid, component graphs of depth<=3 with "
         "F2Dot14-exact matrices of both determinant signs) + dyadic perturbations that keep the structure; streams: a component whose "
-        "2x2 differs in one master (another matrix of the same determinant sign, or ONE entry changed), a glyph that is mixed in one "
+        "2x2 differs in one master (another matrix of the same determinant sign, or ONE entry changed, or - stream 2x2differs:subquantum, "
+        "~30% of the families - float noise BELOW half an F2Dot14 step (2^-16, 2^-17, 2^-15-2^-20) in one entry: 'noise' on an existing "
+        "component of one master, 'limit' on a new pure composite 'subq' of a simple glyph whose 2x2 has an entry exactly ON the F2Dot14 "
+        "limit (+2 or -2: scale, stretch, shear) in some sources and just beyond it in one or two others, any master incl. the first/default "
+        "one, sparse sources getting either variant), a glyph that is mixed in one "
         "master only, a segment that collapses in one master only (coinciding points / retracted handles), a full master lacking a "
         "glyph, a dangling component reference, sparse layers at 1/4, 1/2, 3/4 or -1/2 of a one-axis designspace (default source "
         "anywhere in the source list; each sparse source either a layer of a master UFO or a stand-alone sparse UFO without layerName, "
@@ -22,7 +26,8 @@ RULE = ("families of 2-4 sources: a random master (line/quadratic/cubic contours
         "every / some UFO lib, pre or post, with per-UFO include lists} x ufoLib2/defcon. Observed: the glyph sets the compiler hands "
         "to the outline compiler (every point, exactly; incl. '.notdef' and placeholders), the set check_for_nonmatching_components "
         "leaves in needs_decomposition, and the per-glyph structure of every compiled master (glyf flags + component names / CFF "
-        "operators). fonts_to_quadratic is wrapped to record what goes in and out. Families that reproduce one of the four findings "
+        "operators), and the glyph pen's overflow decision (a 2x2 entry > 2 or < -2 makes fontTools' TTGlyphPointPen decompose the glyph while "
+        "compiling that master) evaluated on the glyph sets handed to the outline compiler (clause penJoint). fonts_to_quadratic is wrapped to record what goes in and out. Families that reproduce one of the four findings "
         "(harness/findings_C09.json) are generated only when the finding is listed in known_findings.json. "
         "non-trivial = some glyph was decomposed, flattened or pruned AND the family has a sparse master that received an "
         "interpolated composite or a placeholder, a 2x2 difference, a one-master mixed glyph, or a converted cubic.")
@@ -36,6 +41,10 @@ ASSUMED = ["cu2qu (fonts_to_quadratic, incl. its contour reversal) is external: 
            "compared name-sorted",
            "InterpolatedLayer.__getitem__ (`_get(name) or _interpolate(name)`: a glyph without contours is falsy and gets "
            "re-interpolated) and the Instantiator's Variator cache are modelled as found",
+           "fontTools' TTGlyphPointPen (handleOverflowingTransforms: decompose the glyph iff some component entry is > 2 or < -2, clamp "
+           "+2, quantise to F2Dot14) is external: its decision rule is transcribed in Model/C09Overflow.lean (penDecomposes) and checked "
+           "against the compiled glyf of every family through the 'compiled' clause (a composite in one master, contours in another), "
+           "not proved about fontTools",
            "StubGlyph's '.notdef' drawing is an input", "double arithmetic is exact on the generators' dyadic grids (DESIGN section 3)"]
 
 
@@ -256,10 +265,15 @@ LEVEL_TEXT = ("Proved (Lean, all inputs): needs_decomposition is a set of NAMES 
               "iteration order is topological (orderTopo, decidable: no glyph is visited after one of its bases - ufo2ft's depth key, "
               "computed in the first glyph set that has the glyph, does not guarantee it; false in ~3% of the generated designspace "
               "families); a kernel-checked witness (mirror-x / mirror-y: zero matrix half-way) shows that 'equal non-zero signs' alone is "
-              "not enough. The driver evaluates "
+              "not enough. (4) Props/C09Overflow.lean: C09_penJoint - under the hypotheses of C09_twoByTwo the decision of fontTools' glyph pen to "
+              "decompose a glyph at compile time (some 2x2 entry beyond +-2, taken per master) is the same in every master, because it is a "
+              "function of the 2x2 alone (penJoint_of_twoByTwo: equal 2x2 => equal decision, any glyph sets); C09_f2dot14_witness (kernel-"
+              "checked): 2 and 2+2^-16 have the same floatToFixed(.,14) but only the second overflows, so comparing the 2x2 at F2Dot14 "
+              "precision in check_for_nonmatching_components would NOT give jointness. The driver evaluates "
               "every (decidable) hypothesis on every generated family: see the tags thm:<name>:applies / hyp-false:<hypothesis> in the "
               "distribution. The executable model is compared point for point with the glyph sets of the real compilers; compatibility, "
-              "jointness, equal 2x2 and the sparse-master predicate are evaluated on the real output (glyph sets and compiled glyf/CFF).")
+              "jointness, equal 2x2, the pen's overflow decision and the sparse-master predicate are evaluated on the real output (glyph sets "
+              "and compiled glyf/CFF).")
 LEVEL_NOTE = ("Trusted: Lean kernel + standard axioms; correspondence harness. Partial: cu2qu's joint-conversion contract is a hypothesis "
               "of C09_cu2qu_partial / C09_pipeline_inst_partial (measured on every family: info.cu2quContract, hyp cu2quAlike) and 'cu2qu keeps "
               "keys, names, advances, components' a hypothesis of C09_sparse / C09_twoByTwo (measured: hyp cu2quOk); C09_twoByTwo and holdsJoint "
@@ -267,4 +281,6 @@ LEVEL_NOTE = ("Trusted: Lean kernel + standard axioms; correspondence harness. P
               "non-topological iteration orders: once a base has been modified before its user is visited, a master that has the base sees "
               "the modified glyph while a sparse master interpolates a stale (cached) or fresh Variator, so the views no longer agree glyph by "
               "glyph; and matrices composed by an earlier filter need not be sign-stable (signStable is not closed under composition). "
+              "The pen's overflow rule (penDecomposes) is a transcription of fontTools code, observed only (predicate holdsPenJoint on the "
+              "observed glyph sets + the compiled glyf structure); C09_penJoint is not proved for builds with an Instantiator. "
               "The model follows /repo fix 61a81a2 (the Instantiator reads the pre-processor's copies from the start). Four finding families are registered as proposals in harness/findings_C09.json.")
